@@ -2,6 +2,7 @@
 """Entry point: python3 tools/check.py <Cxx> [--tier quick|thorough] [--replay path]"""
 import sys, os, argparse, importlib, json, traceback
 sys.path.insert(0, os.path.dirname(os.path.abspath(__file__)))
+sys.path.insert(1, os.path.join(os.path.dirname(os.path.abspath(__file__)), 'props'))
 import vlib
 
 
